@@ -199,18 +199,36 @@ func (e *c20Env) unfreeze(d *c20Dag) {
 // answer is therefore asked again once: only a repeated wrong answer is a verdict; a one-off
 // is counted and the rest of the sequence (whose model may be off now) is abandoned.
 func (e *c20Env) postLive(dagID string, body map[string]string, wrong func(int) bool) int {
-	code := e.post(dagID, body)
-	if !wrong(code) {
-		return code
+	// The API asks the agent over its socket and gives it 3 s (sock.defaultTimeout); when
+	// that exchange times out it decides from the history file instead, which for a live run
+	// says "not running".  On a loaded machine this happens to a healthy agent (seen in a
+	// fresh-copy run while six other jobs used the machine: two exchanges in a row).  A wrong
+	// answer that took at least that long may be nothing but this timeout and is therefore
+	// not a verdict: it is counted and the sequence abandoned.  A wrong answer that came back
+	// faster than any timeout could have expired is the API's own decision; it is asked
+	// again once and reported if it repeats.
+	const agentTimeout = 2500 * time.Millisecond
+	for attempt := 0; ; attempt++ {
+		t0 := time.Now()
+		code := e.post(dagID, body)
+		took := time.Since(t0)
+		if !wrong(code) {
+			if attempt > 0 {
+				e.c.Count("wrong_answers_on_a_live_run_not_reproduced", 1)
+				e.abandon = true
+			}
+			return code
+		}
+		if took >= agentTimeout {
+			e.c.Count("wrong_answers_on_a_live_run_after_an_agent_timeout", 1)
+			e.abandon = true
+			return -1
+		}
+		if attempt >= 1 {
+			return code
+		}
+		time.Sleep(300 * time.Millisecond)
 	}
-	time.Sleep(300 * time.Millisecond)
-	code2 := e.post(dagID, body)
-	if wrong(code2) {
-		return code2
-	}
-	e.c.Count("wrong_answers_on_a_live_run_not_reproduced", 1)
-	e.abandon = true
-	return code2
 }
 
 func (e *c20Env) spec(d *c20Dag, kind string) *vexec.CaseSpec {
@@ -566,13 +584,18 @@ func c20Sequence(c *core.Ctx, idx int) {
 			var code int
 			if st == "running" {
 				code = e.postLive(d.ID, map[string]string{"action": "stop"}, func(c int) bool { return c != 200 })
-				e.abandon = false // a stop that got through leaves the model intact
+				if code == 200 {
+					e.abandon = false // a stop that got through leaves the model intact
+				}
 			} else {
 				code = e.post(d.ID, map[string]string{"action": "stop"})
 			}
 			e.ops = append(e.ops, fmt.Sprintf("stop %s[%s] -> %d", d.ID, st, code))
 			c.Count("action_stop", 1)
 			c.Count("obligations", 1)
+			if e.abandon {
+				break
+			}
 			if st == "running" {
 				if code != 200 {
 					e.violate("stop-refused-running", fmt.Sprintf("stop of a running DAG was refused (HTTP %d)", code))
@@ -787,6 +810,11 @@ func c20Sequence(c *core.Ctx, idx int) {
 			}
 			noSpawn("unknown-dag", got)
 			unchanged("unknown-dag-" + action)
+		}
+	}
+	if os.Getenv("VERIF_C20_DUMP") != "" {
+		for _, o := range e.ops {
+			fmt.Fprintln(os.Stderr, "C20-OP", o)
 		}
 	}
 	c.Sig(idx, e.ops)
